@@ -407,6 +407,30 @@ pub fn same_specifier_projects() -> Vec<Vec<(String, String)>> {
     out
 }
 
+/// One file importing differently named fragments from same-named files in its own directory and in two ancestor
+/// directories (every file defines every name, with different fields): the specifiers differ only in how far they climb.
+pub fn climb_projects() -> Vec<Vec<(String, String)>> {
+    let spellings = [("./frags.graphql", 0), ("frags.graphql", 0), ("../frags.graphql", 1), ("../../frags.graphql", 2)];
+    let mut out = vec![];
+    for (s1, f1) in spellings {
+        for (s2, f2) in spellings {
+            if f1 == f2 {
+                continue;
+            }
+            for (n1, n2) in [("A", "B"), ("B", "A"), ("C", "A")] {
+                let main = format!("#import {n1} from \"{s1}\"\n#import {n2} from \"{s2}\"\nquery Q {{ u {{ ...{n1} friends {{ ...{n2} }} }} }}\n");
+                out.push(vec![
+                    ("/p/src/admin/main.graphql".to_string(), main),
+                    ("/p/src/admin/frags.graphql".to_string(), "fragment A on User { id }\nfragment B on User { age }\nfragment C on User { kind }\n".to_string()),
+                    ("/p/src/frags.graphql".to_string(), "fragment A on User { name }\nfragment B on User { kind }\nfragment C on User { id }\n".to_string()),
+                    ("/p/frags.graphql".to_string(), "fragment A on User { born }\nfragment B on User { id }\nfragment C on User { name }\n".to_string()),
+                ]);
+            }
+        }
+    }
+    out
+}
+
 pub fn run(args: &RunArgs) -> i32 {
     let rep = Reporter::new("C12", &args.tier);
     crate::util::install_hook();
@@ -531,6 +555,7 @@ pub fn run(args: &RunArgs) -> i32 {
     let import_docs = AtomicU64::new(0);
     let mut projects = import_projects();
     projects.extend(same_specifier_projects());
+    projects.extend(climb_projects());
     let own_js: Mutex<BTreeMap<usize, String>> = Mutex::new(BTreeMap::new());
     let interleaved: Mutex<BTreeMap<usize, String>> = Mutex::new(BTreeMap::new());
     crate::explore::par_for(projects.len(), args.threads, |i| {
